@@ -241,6 +241,7 @@ class Ctx:
         self.assume(self.alloc0 > 0)
         self.assume(self.trlen >= 0)
         self.branch_log = []
+        self.own_stores = []  # (field, "id", id term) | (field, "pred", lambda x) : heap locations written by the code under verification
 
     # ---- decisions / path condition ---------------------------------------------------------
     def choose(self, n, label=""):
@@ -345,6 +346,19 @@ class Ctx:
 
     def store_raw(self, idt, name, valt):
         self.heap[name] = z3.Store(self.field_array(name), idt, valt)
+
+    def wrote(self, fname, idt=None, pred=None):
+        """record a heap write made by the executed code itself (not by the environment), for the frame check"""
+        if idt is not None:
+            s = z3.simplify(idt)
+            # ids of objects allocated on this path are alloc0 + k: writing those is always allowed
+            if z3.is_app(s) and s.decl().name() == "+" and any(ch.eq(self.alloc0) for ch in s.children()):
+                return
+            if s.eq(self.alloc0):
+                return
+            self.own_stores.append((fname, "id", s))
+        else:
+            self.own_stores.append((fname, "pred", pred))
 
     def alloc(self, cls=None, ty=None):
         """fresh object, distinct from every pre-existing and every earlier allocated object"""
